@@ -317,6 +317,9 @@ class Folder(FileSystemItemABC):
 
         file.restore()
         self.files[file.uuid] = file
+        # requests are routed by file name: make the route point at the restored object (a file of the same name may
+        # have been created and deleted in the meantime)
+        self._file_request_manager.add_request(file.name, RequestType(func=file._request_manager))
 
         # file.restore() has just cleared the deleted flag, so look the file up rather than testing the flag
         self.deleted_files.pop(file.uuid, None)
